@@ -445,3 +445,6 @@ func onlyLiterals(e ast.Expr) bool {
 	})
 	return ok
 }
+
+// Minus returns l − o.
+func (l LinForm) Minus(o LinForm) LinForm { return l.add(o, -1) }
